@@ -164,11 +164,14 @@ def relayout(d, rnd):
             elif m.group(1)[0] == fence[0] and len(m.group(1)) >= len(fence):
                 fence = None
         in_fence = fence is not None or was is not None
-        if in_fence or line.startswith("    ") or "|" in line or "`" in line:
+        if in_fence or line.startswith("    ") or "|" in line or "`" in line or re.match(r"^[ >]*\[[^\]]*\]:", line):
             out.append(line)
             continue
-        m = re.match(r"^([ >]*(?:(?:[-*+]|\d+[.)]) +(?:\[[ x]\] )?)*)(.*)$", line)
+        m = re.match(r"^((?:[ >]|(?:[-*+]|\d+[.)]) +(?:\[[ x]\] )?)*)(.*)$", line)
         head, body = m.group(1), m.group(2)
-        body = re.sub(r"(?<=\S) (?=\S)", lambda _m: " " * rnd.choice((1, 1, 2, 3)), body)
+        # (no tab right after a footnote / link-definition label: Marko's footnote parser never returns on '[^x]:<TAB>',
+        # recorded finding C12-marko-footnote-tab-hang)
+        seps = (" ", " ", "  ", "   ") if re.match(r"^\[\^?[^\]]*\]:", body) else (" ", " ", "  ", "   ", "\t", " \t ")
+        body = re.sub(r"(?<=\S) (?=\S)", lambda _m: rnd.choice(seps), body)
         out.append(head + body)
     return "\n".join(out)
